@@ -9,6 +9,7 @@
   may start; generations for different names do not interfere.
 -/
 import Dirk.Lemmas.DkgLife
+import Dirk.Lemmas.LifeJudge
 
 namespace Dirk.Dkg
 
@@ -49,6 +50,19 @@ theorem C17_independent_names (c : Cluster) (i caller k : Nat) (acct other : Str
     sessionOf (onCommit c i caller acct).1 k other = sessionOf c k other ∧
     sessionOf (onAbort c i caller acct).1 k other = sessionOf c k other :=
   independent_names c i caller k acct other t parts hne
+
+/-- **the lifecycle judge never raises an alarm on the model.**  `Spec.Life.judge` is the reading of C17
+    that the check evaluates on the implementation's replies alone (no prepare accepted while a
+    generation for that name is active on that instance, nothing else accepted while none is, names and
+    instances independent by construction).  For every event sequence — prepares, executes (with the
+    contribution exchanges they trigger), contributions, commits, aborts, clock advances, any callers,
+    any names — fed to the model cluster the driver builds, every verdict on the model's own replies is
+    "ok": the model satisfies that reading of C17 for all histories, and a verdict other than "ok" on
+    the implementation is a behaviour the proven model cannot show. -/
+theorem C17_lifecycle_all_histories (ids peers : List Nat) (timeout : Nat) (evs : List LifeJudge.Ev) :
+    ∀ v ∈ LifeJudge.runBoth { insts := ids.map (fun i => ({ id := i } : DInst)), peers := peers, timeout := timeout }
+      { timeout := timeout, now := 0 } evs, v = "ok" :=
+  LifeJudge.judge_sound_driver ids peers timeout evs
 
 /-- The shipped defect (repaired by a `fix:` commit): contributions were accepted from any peer and
     commit compared only counts — with participants {1,3,5} at instance 3, its own entry, a contribution
